@@ -405,6 +405,100 @@ func attacks(c *vf.Ctx, x *chain.Explorer, w *chain.World, path []string) {
 	}
 	// ephemeral outputs: created and double-spent inside one block
 	ephemeral(c, x, w, path, v1ok, v2ok)
+	if v1ok {
+		expiryAfterResolution(c, x, w, path)
+	}
+}
+
+// expiryAfterResolution: a v1 contract needs no transaction to be resolved a second time - listing it in the block
+// supplement's ExpiringFileContracts is enough. First resolution = storage proof or the natural expiration at the window
+// end; the next block lists the contract as expiring again, with the pre-resolution proof and with the proof maintained
+// through the resolving block (which then opens the RESOLVED leaf). Also: the contract listed twice in one supplement.
+func expiryAfterResolution(c *vf.Ctx, x *chain.Explorer, w *chain.World, path []string) {
+	h := w.ChildHeight()
+	for _, e := range w.Ref.Live(chain.KFC) {
+		fce, ok := w.Store.FC[types.FileContractID(e.ID)]
+		if !ok {
+			continue
+		}
+		fc := fce.FileContract
+		type first struct {
+			name string
+			uses []chain.Use
+		}
+		var firsts []first
+		if fc.WindowStart <= h && h < fc.WindowEnd {
+			if u, ok := w.UseV1Proof(fce, fc); ok {
+				firsts = append(firsts, first{"v1proof", []chain.Use{u}})
+			}
+		}
+		if fc.WindowEnd == h {
+			firsts = append(firsts, first{"v1expire", nil})
+			// the contract listed twice in the supplement of its expiration block: accepted only if it resolves once
+			b, bs := w.BlockOfUses()
+			bs.ExpiringFileContracts = append(bs.ExpiringFileContracts, fce.Copy())
+			c.Count("attack:expiring-listed-twice", 1)
+			if ok, p := accept(x, w, b, bs); p != nil {
+				x.Violate("attack|panic|expiring-listed-twice", fmt.Sprintf("ValidateBlock panicked on a supplement listing an expiring contract twice: %v", p), path)
+			} else if ok {
+				wd := w.Clone()
+				if err, p := wd.ApplyFrom(w, b, bs); err != nil || p != nil {
+					desc := fmt.Sprint(err)
+					if p != nil {
+						desc = p.Sig + ": " + p.Desc
+					}
+					x.Violate("second-use-accepted|fc|v1expire->v1expire|same-supplement", fmt.Sprintf("block whose supplement lists one expiring contract twice was accepted at height %d and resolved it twice: %s", h, desc), append(append([]string(nil), path...), "attack:expiring-listed-twice"))
+				} else {
+					c.Count("expiring_listed_twice_resolved_once", 1)
+				}
+			} else {
+				c.Count("attack_rejected", 1)
+			}
+		}
+		if h+1 >= w.Net.HardforkV2.RequireHeight {
+			continue
+		}
+		for _, f := range firsts {
+			b1, bs1 := w.BlockOfUses(f.uses...)
+			if ok, _ := accept(x, w, b1, bs1); !ok {
+				continue // reported as a control by the main loop
+			}
+			w1 := w.Clone()
+			if err, p := w1.ApplyFrom(w, b1, bs1); err != nil || p != nil {
+				if p != nil {
+					x.Violate(p.Sig, p.Desc, path)
+				}
+				continue
+			}
+			au := lastUpdate(w, b1, bs1)
+			b2, bs2 := w1.BlockOfUses()
+			if ok, p := accept(x, w1, b2, bs2); !ok {
+				x.Violate("control-rejected|empty-next-block", fmt.Sprintf("empty block after the %s of a v1 contract rejected at height %d (panic=%v)", f.name, h+1, p), path)
+				continue
+			}
+			c.Count("control_accepted", 1)
+			for _, form := range []string{"stale", "updated"} {
+				r := fce.Copy()
+				if form == "updated" {
+					au.UpdateElementProof(&r.StateElement)
+				}
+				bs := deepCopySupp(bs2)
+				bs.ExpiringFileContracts = append(bs.ExpiringFileContracts, r)
+				placement := "next-block-" + form + "-supplement"
+				c.Count("attack:"+placement, 1)
+				c.Distinct(w.Spec.Name, h, "fc", f.name, "v1expire", placement)
+				if ok, p := accept(x, w1, b2, bs); p != nil {
+					x.Violate("attack|panic|"+placement, fmt.Sprintf("ValidateBlock panicked on attack %s->v1expire (%s): %v", f.name, placement, p), path)
+				} else if ok {
+					x.Violate("second-use-accepted|fc|"+f.name+"->v1expire|"+placement,
+						fmt.Sprintf("block whose supplement lists an already resolved v1 contract (%s in the previous block) as expiring (%s proof) was ACCEPTED at height %d", f.name, form, h+1),
+						append(append([]string(nil), path...), "attack:"+placement+":"+f.name+"->v1expire"))
+				} else {
+					c.Count("attack_rejected", 1)
+				}
+			}
+		}
+	}
 }
 
 func lastUpdate(w *chain.World, b types.Block, bs consensus.V1BlockSupplement) consensus.ApplyUpdate {
